@@ -462,6 +462,9 @@
 (define-fun ptrAllOK ((r (Array Key Bytes))) Bool (forall ((id Bytes)) (! (ptrOK r id) :pattern ((select r (KExpH id))) :pattern ((select r (KNewH id))))))
 (define-fun schedInv ((r (Array Key Bytes))) Bool (and (ctxAllOK r) (expAllOK r) (newAllOK r) (ptrAllOK r)))
 
+; the record-level validity rules of a binding (what ServiceBinding.Validate is proved to enforce; part of WF)
+(define-fun bindRecOK ((b ServiceBinding)) Bool
+  (and (> (blen (ServiceBinding_Provider b)) 0) (> (blen (ServiceBinding_Owner b)) 0) (coinsValid (ServiceBinding_Deposit b)) (> (ServiceBinding_QoS b) 0)))
 ; ---- the state right after genesis import (A0, base case of the inductions): no record of the families that only the
 ; running module writes (requests, responses, pending markers, both queues and their pointers, earnings, volumes)
 (define-fun runtimeKey ((k Key)) Bool (or (is-KReq k) (is-KResp k) (is-KActID k) (is-KActB k) (is-KExpQ k) (is-KExpH k) (is-KNewQ k) (is-KNewH k)
